@@ -722,9 +722,10 @@ fn c18_exhaustive(args: &Args, rep: &mut Report) {
             }
         }
     }
+    let miri = args.regime == "miri";
     for l in &lists {
         n += 1;
-        if n % args.nshards as u64 != args.shard as u64 {
+        if n % args.nshards as u64 != args.shard as u64 || (miri && l.len() > 2) {
             continue;
         }
         let mut w = 10;
@@ -756,8 +757,8 @@ fn c18_exhaustive(args: &Args, rep: &mut Report) {
         }
     }
     // predicates
-    for nn in 0..=3usize {
-        for ne in 0..=3usize {
+    for nn in 0..=(if miri { 2 } else { 3usize }) {
+        for ne in 0..=(if miri { 1 } else { 3usize }) {
             let starts: Vec<Edge> = (0..=ne as Edge + 1).chain([Edge::MAX - 1, Edge::MAX]).collect();
             let total = starts.len().pow(nn as u32);
             for ix in 0..total {
